@@ -59,6 +59,7 @@ def run_shard(spec):
     counters = {"numeric_runs_compared": 0, "draws": 0}
     sigs, viol, samples, notes = set(), [], [], []
     simulated, not_simulated, best, best_run = set(), {}, {}, {}
+    common_centre_needed = set()
     entries = ET.EXAMPLES
     work = []
     if "replay" in spec:
@@ -103,7 +104,15 @@ def run_shard(spec):
             try:
                 with warnings.catch_warnings():
                     warnings.simplefilter("ignore")
-                    r = numeric.run_numeric(e["module"], e["func"], kw, ms, ds, dim)
+                    adv = {"common_centre": True} if (hash(ds) % 4 == 0 or name in common_centre_needed) else None
+                    try:
+                        r = numeric.run_numeric(e["module"], e["func"], kw, ms, ds, dim, adversary=adv)
+                    except numeric.InvalidRun:
+                        if adv is None:
+                            r = numeric.run_numeric(e["module"], e["func"], kw, ms, ds, dim, adversary={"common_centre": True})
+                            common_centre_needed.add(name)
+                        else:
+                            raise
             except numeric.Unsupported as ex:
                 probe_err = str(ex)[:80]
                 counters["unsupported_runs"] = counters.get("unsupported_runs", 0) + 1
@@ -128,7 +137,7 @@ def run_shard(spec):
                 best[name] = ratio
             if name not in best_run or perf > best_run[name][3]:
                 best_run[name] = (ms, ds, dim, perf)
-            if perf > bound * (1 + 1e-4) + 1e-7:
+            if perf > bound + 1e-4 * abs(bound) + 1e-7:
                 if len(viol) < 10 and not any(v["key"] == "real_run_beats_bound:" + name for v in viol):
                     viol.append({"key": "real_run_beats_bound:" + name, "example": name, "kwargs": kw,
                                  "member_seed": ms, "dir_seed": ds, "dim": dim,
@@ -174,7 +183,7 @@ def run_shard(spec):
                     cur, cur_perf = trial, r["perf"]
                     ratio = cur_perf / bound if bound > 1e-9 else (0.0 if cur_perf <= bound + 1e-7 else 1e9)
                     best[name] = max(best.get(name, 0.0), ratio)
-                    if cur_perf > bound * (1 + 1e-4) + 1e-7 and len(viol) < 10:
+                    if cur_perf > bound + 1e-4 * abs(bound) + 1e-7 and len(viol) < 10:
                         viol.append({"key": "real_run_beats_bound:" + name, "example": name, "kwargs": kw, "member_seed": ms, "dir_seed": ds,
                                      "dim": dim, "direction": [float(x) for x in cand],
                                      "what": "%s(%s): a real run (hill-climbed start) achieves %.8g, the library returns %.8g"
